@@ -10,6 +10,7 @@ import (
 	"github.com/Breeze0806/gobinlog/replication"
 
 	"verifharness/core"
+	"verifharness/enc/ev"
 	"verifharness/hist"
 	"verifharness/run"
 	"verifharness/sim"
@@ -27,6 +28,7 @@ func init() {
 			c20Held(c)
 			c20DottedNames(c)
 			c20BigValues(c)
+			c20RowsQueryProbe(c)
 		}
 	})
 }
@@ -223,5 +225,67 @@ func c20BigValues(c *core.Ctx) {
 				c.Cell("big-multibyte-values")
 			}
 		}
+	}
+}
+
+// c20RowsQueryProbe: a master with binlog_rows_query_log_events=ON logs the
+// statement text in a ROWS_QUERY event in front of the table maps. The pinned
+// library refuses that event (then there is nothing to serialise and the probe
+// records that); a library that accepts it must still serialise the delivered
+// transactions with all their rows.
+func c20RowsQueryProbe(c *core.Ctx) {
+	nh := c.N(24, 300)
+	for idx := 0; idx < nh; idx++ {
+		if !c.Mine(idx) {
+			continue
+		}
+		h, tables, cb := c01History(c, 70000+idx)
+		l := h.Build()
+		start := hist.Pos{File: h.FirstFile, Off: 4}
+		plan := sim.Plan(l, start)
+		faults := map[int]sim.Fault{}
+		for k, pk := range plan {
+			if pk.Kind == "tablemap" && (k == 0 || plan[k-1].Kind != "tablemap") {
+				cfg := l.Files[pk.File].Cfg
+				faults[k] = sim.Fault{Kind: sim.FInject, Payload: cfg.EventNext(pk.Start, ev.RowsQuery, 0x80, ev.RowsQueryBody(fmt.Sprintf("insert into t values (%d) /* rows query */", k)), pk.Start)}
+			}
+		}
+		if len(faults) == 0 {
+			continue
+		}
+		s, err := run.NewSession(l, tables, 2021, start, false)
+		if err != nil {
+			c.Inconclusive("cannot start master: " + err.Error())
+			return
+		}
+		for _, g := range run.LibGoroutines(nil) {
+			s.Abandon(g.ID)
+		}
+		s.M.SetScripts(&sim.Script{End: sim.EndEOF, Faults: faults})
+		res := s.Attempt(run.NoFaults(), nil, maxWait)
+		c.Case(core.HashU64(layoutHash(l), 2021), true)
+		switch {
+		case res.Verdict != run.Returned:
+			c.Cell("stream-not-returned(reported under C05)")
+		case res.Err != nil:
+			c.Cell("rows-query:refused-by-the-library")
+		default:
+			c.Cell("rows-query:accepted-by-the-library")
+		}
+		for di, d := range res.Delivered {
+			if d.Ptr == nil {
+				continue
+			}
+			key, msg := "", ""
+			if p := core.Guard(func() { key, msg = checkTxJSON(d.Ptr, true) }); p != "" {
+				key, msg = "txjson-panic", p
+			}
+			if key != "" {
+				c.Violation("rowsquery:"+key, fmt.Sprintf("history %d (%s) with ROWS_QUERY events, delivery %d: %s", idx, cb, di, msg), witnessOf(map[string]interface{}{"mode": "rows-query", "hist": idx}, h, s, nil))
+				s.Close()
+				return
+			}
+		}
+		s.Close()
 	}
 }
